@@ -1,15 +1,132 @@
 """C13 - time-domain rejection keeps exactly the windows that satisfy the criterion (window_rejection.py).
 
-No obligation is discharged deductively yet for this property: sta_lta_window_rejection works through numpy reshape / mean(axis=1)
-and both functions branch on isinstance of the attached HVSR object; the contract (DESIGN.md 5/C13) is evaluated natively.
+Under contract: maximum_value_window_rejection (normalised and absolute thresholds, three component subsets, no / traditional / two-azimuth
+object attached).  sta_lta_window_rejection works through numpy reshape / mean(axis=1) and is evaluated natively (bounded/C13.py).
 """
+import z3
+
+from pyvc.core import I, R, B, NONE, StrV, Tup, ClsV
+from pyvc.contract import Contract, FunctionTask, sym_obj, sym_arr1
+from pyvc import objects
+from pyvc.objects import fld, arr_at, arr_len, new_symlist
+
+L = z3.Int("L")
+RECS = z3.Const("record_ids", z3.ArraySort(I, I))
+thr = z3.Real("maximum_value_threshold")
+MX = z3.Function("MX", I, R)          # largest absolute sample of record r over the examined components
+GM = z3.Real("GM")                    # largest MX over all records (the normaliser)
+KC = z3.Function("KC", I, I)          # number of kept records before r
+
+
+def comp_id(r, c):
+    return fld("SeismicRecording3C", c, I)(z3.Select(RECS, r))
+
+
+def X(r, c, j):
+    return arr_at("TimeSeries", "amplitude", comp_id(r, c), j)
+
+
+def NS(r, c):
+    return arr_len("TimeSeries", "amplitude", comp_id(r, c))
+
+
+def zabs(x):
+    return z3.If(x >= 0, x, -x)
+
+
+def axioms(comps, normalized):
+    r, j, q = z3.Ints("r!mx j!mx q!mx")
+    ax = [z3.ForAll([r], MX(r) >= 0, patterns=[MX(r)])]
+    for c in comps:
+        ax.append(z3.ForAll([r, j], z3.Implies(z3.And(j >= 0, j < NS(r, c)), zabs(X(r, c, j)) <= MX(r)), patterns=[X(r, c, j)]))
+    ax.append(z3.ForAll([r], z3.Or(MX(r) == 0, *[z3.Exists([j], z3.And(j >= 0, j < NS(r, c), zabs(X(r, c, j)) == MX(r))) for c in comps]), patterns=[MX(r)]))
+    keep = (lambda rr: MX(rr) / GM < thr) if normalized else (lambda rr: MX(rr) < thr)
+    ax += [KC(0) == 0, z3.ForAll([r], z3.Implies(r >= 0, KC(r + 1) == KC(r) + z3.If(keep(r), 1, 0)), patterns=[KC(r + 1)]),
+           z3.ForAll([r], z3.Implies(r >= 0, z3.And(KC(r) >= 0, KC(r) <= r)), patterns=[KC(r)]),
+           # monotone: consequence of the unfolding by induction (step lemma below; A-INDUCTION)
+           z3.ForAll([r, q], z3.Implies(z3.And(0 <= r, r <= q), KC(r) <= KC(q)), patterns=[z3.MultiPattern(KC(r), KC(q))])]
+    if normalized:
+        ax += [z3.ForAll([q], z3.Implies(z3.And(q >= 0, q < L), MX(q) <= GM), patterns=[MX(q)]), z3.Exists([q], z3.And(q >= 0, q < L, MX(q) == GM)), GM > 0]
+    return ax, keep
+
+
+def make_inputs(comps, normalized, attach):
+    def mk(ex, st):
+        st.env["records"] = new_symlist(ex, st, "SeismicRecording3C", length=L, arr=RECS, owner="param:records", name="records")
+        st.env["maximum_value_threshold"] = thr
+        st.env["normalized"] = z3.BoolVal(normalized)
+        st.env["components"] = Tup(StrV(c) for c in comps)
+        st.env["L"] = L
+
+        def mk_tr(nm):
+            vw = sym_arr1(ex, st, f"{nm}_vw", L, elem="bool", owner=f"param:{nm}.valid_window_boolean_mask")
+            vp = sym_arr1(ex, st, f"{nm}_vp", L, elem="bool", owner=f"param:{nm}.valid_peak_boolean_mask")
+            return sym_obj(ex, st, "HvsrTraditional", {"valid_window_boolean_mask": vw, "valid_peak_boolean_mask": vp}, owner=f"param:{nm}")
+        if attach == "none":
+            st.env["hvsr"] = NONE
+        elif attach == "traditional":
+            st.env["hvsr"] = mk_tr("hvsr")
+        else:
+            a, b = mk_tr("az0"), mk_tr("az1")
+            st.env["hvsr"] = sym_obj(ex, st, "HvsrAzimuthal", {"hvsrs": ex.alloc_list(st, [a, b], owner="param:hvsr.hvsrs")}, owner="param:hvsr")
+            st.env["az0"], st.env["az1"] = a, b
+        r = z3.Int("r!ns")
+        facts = [L >= 1]
+        for c in comps:
+            facts.append(z3.ForAll([r], NS(r, c) >= 1, patterns=[NS(r, c)]))
+        return facts
+    return mk
+
+
+def contract(comps, normalized, attach):
+    ax, keep = axioms(comps, normalized)
+    KEEP = "(MX(r) / GM < maximum_value_threshold)" if normalized else "(MX(r) < maximum_value_threshold)"
+    ens = ["len(result) == KC(L)",
+           f"forall(r, 0, L, implies({KEEP}, result[KC(r)] is records[r]))"]
+    mask = lambda obj: [f"len({obj}.valid_window_boolean_mask) == L and len({obj}.valid_peak_boolean_mask) == L",
+                        f"forall(r, 0, L, {obj}.valid_window_boolean_mask[r] == {KEEP})", f"forall(r, 0, L, {obj}.valid_peak_boolean_mask[r] == {KEEP})"]
+    if attach == "traditional":
+        ens += mask("hvsr")
+    elif attach == "azimuthal":
+        ens += mask("az0") + mask("az1")
+    keepk = KEEP.replace("(r)", "(i)")
+    return Contract(
+        qual="hvsrpy.window_rejection.maximum_value_window_rejection", params=["records", "maximum_value_threshold", "normalized", "components", "hvsr"],
+        ghost={"MX": MX, "KC": KC, "GM": GM}, requires=[], ensures=ens,
+        loops={0: ["forall(q, 0, _k0, maximum_values[q] == MX(q))", "len(maximum_values) == L"],
+               2: ["len(passing_records) == KC(_k2)", "len(valid_window_boolean_mask) == _k2",
+                   f"forall(i, 0, _k2, valid_window_boolean_mask[i] == {keepk})",
+                   f"forall(i, 0, _k2, implies({keepk}, passing_records[KC(i)] is records[i]))"]},
+        sym_lists={"passing_records": "SeismicRecording3C", "valid_window_boolean_mask": "bool"}, axioms=ax,
+        make_inputs=make_inputs(comps, normalized, attach),
+        modifies=["param:hvsr", "param:az0", "param:az1"],
+        notes="MX(r) = largest absolute sample of record r over the examined components (complete characterisation: bounds every sample, attained or 0); "
+              "normalised: relative to GM = max_r MX(r) > 0 (precondition: some examined sample is non-zero)")
+
+
+HVT, HVA = ClsV("HvsrTraditional"), ClsV("HvsrAzimuthal")
 TASKS = []
+for comps in (("ns", "ew", "vt"), ("vt",), ("ns", "ew")):
+    for normalized in (True, False):
+        for attach in ("none", "traditional", "azimuthal"):
+            if comps != ("ns", "ew", "vt") and attach == "azimuthal":
+                continue
+            TASKS.append(FunctionTask(contract(comps, normalized, attach), module_env={"HvsrTraditional": HVT, "HvsrAzimuthal": HVA},
+                                      label=f"hvsrpy.window_rejection.maximum_value_window_rejection[{'+'.join(comps)},{'normalised' if normalized else 'absolute'},hvsr={attach}]",
+                                      clauses=["keep iff largest absolute sample (relative when normalised) below threshold; same objects in order; masks = selection"]))
+
+from pyvc.contract import LemmaTask
+_r, _q = z3.Ints("r q")
+_kp = z3.Bool("keep_q")
+TASKS += [LemmaTask("kept-count-monotone[step]", [_r >= 0, _q >= _r, KC(_r) <= KC(_q), KC(_q + 1) == KC(_q) + z3.If(_kp, 1, 0)], KC(_r) <= KC(_q + 1), "KC(r) <= KC(q) ==> KC(r) <= KC(q+1)"),
+          LemmaTask("kept-count-range[step]", [_r >= 0, KC(_r) >= 0, KC(_r) <= _r, KC(_r + 1) == KC(_r) + z3.If(_kp, 1, 0)], z3.And(KC(_r + 1) >= 0, KC(_r + 1) <= _r + 1), "0 <= KC(r) <= r")]
+
 META = dict(
     level="other",
-    explanation="bounded only: the executable form of the C13 contract (keep predicate per window and component, object identity and order of the "
-                "returned windows, accept masks of an attached traditional / azimuthal object equal to the last selection, records unmodified, "
-                "amplitude-scale invariance, conjunction over components, monotonicity in the limits) is evaluated natively on generated windows; "
-                "no PyVC obligation is claimed for this property",
-    trusted_base=["numpy reshape/mean/abs/max", "the native oracle in bounded/C13.py"],
-    assumptions=["A-NP-MEAN", "A-NP-MAX", "A-NP-RESHAPE"],
+    explanation="proved: maximum_value_window_rejection for three component subsets x normalised/absolute x (no object, traditional, two-azimuth azimuthal): the "
+                "returned list is the order-preserving subsequence of the same objects with largest absolute sample (relative to the overall largest when "
+                "normalised) below the threshold, attached objects end with both masks equal to that selection; bounded: sta_lta_window_rejection "
+                "(numpy reshape / mean(axis=1) outside the subset) and the same maximum-value contract natively incl. call sequences",
+    trusted_base=["A-REAL", "A-PY", "A-NP-MAX / A-NP-ABS", "symbolic list/object model", "azimuthal case proved for two azimuths (loop over a concrete list unrolled)", "PyVC engine + z3/cvc5"],
+    assumptions=["A-REAL", "A-PY", "A-NP-MAX", "A-NP-MEAN (bounded)", "A-NP-RESHAPE (bounded)"],
 )
